@@ -195,6 +195,23 @@ def run_lookup_case(x):
                         probs.append(f"lookup of absent {l} did not raise")
         if [d.letter for d in X] != list(x):
             probs.append("iteration order")
+        # two dimensions that share a NAME but not the letter (e.g. origin and destination region): whatever a lookup
+        # by that name gives, lookups by letter and position still agree with the order
+        from flodym import DimensionSet
+
+        for pos in ((0, n) if n else ()):
+            twin = S.make_dimension("f", ITEMS["f"], name=S.NAMES[x[-1 if pos == 0 else 0]])
+            dl = [D(l) for l in x]
+            dl.insert(pos, twin)
+            st2, Z = attempt(lambda: DimensionSet(dim_list=dl))
+            if st2 == "raised":
+                continue  # refusing duplicate names is fine
+            order = [d.letter for d in dl]
+            for i, l in enumerate(order):
+                if Z[l].letter != l or Z[i].letter != l or Z.index(l) != i or Z.size(l) != len(ITEMS[l]) or l not in Z:
+                    probs.append(f"with a namesake dimension 'f' at position {pos}: lookups by letter {l!r} / position {i} disagree with the order {order}")
+            if tuple(Z.letters) != tuple(order) or tuple(Z.shape) != tuple(len(ITEMS[l]) for l in order):
+                probs.append(f"with a namesake dimension: letters / shape disagree with the order {order}")
         return probs
 
     st, probs = attempt(go)
@@ -214,8 +231,15 @@ def run_subset_case(x, sel, style):
         return "fail", dict(case=case, tags=dict(kind="subset", style=style), what=f"subset {keys} of ({x!r}): {what}")
 
     bad = any(l not in x for l in sel)
-    for how, fn in (("get_subset", lambda: X.get_subset(keys)), ("getitem", lambda: X[keys])):
+    forms = [("get_subset", lambda: X.get_subset(keys), False), ("getitem", lambda: X[keys], False)]
+    # the same request as a list and as one-shot iterables (accepting those is optional, a wrong subset is not)
+    forms += [("get_subset(list)", lambda: X.get_subset(list(keys)), False), ("get_subset(generator)", lambda: X.get_subset(k for k in keys), True), ("get_subset(reversed)", lambda: X.get_subset(reversed(keys[::-1])), True)]
+    if style == "letters" and all(len(k) == 1 for k in keys):
+        forms.append(("get_subset(str)", lambda: X.get_subset("".join(keys)), True))
+    for how, fn, optional in forms:
         st, got = attempt(fn)
+        if optional and st == "raised":
+            continue
         if bad:
             if st != "raised":
                 return fail(f"{how} with a dimension not in the set must raise")
@@ -483,6 +507,8 @@ def run_unit(u):
                 rec(*run_pair_case(x, y, op, "set"), nt=bool(x or y))
                 if op in ("|", "&", "-", "union_with") and any(l in x for l in y):
                     rec(*run_pair_case(x, y, op, "set-variant"))
+                if len(y) == 1 and op != "^":  # a single Dimension as right operand (accepted by the signatures) acts as the one-element set
+                    rec(*run_pair_case(x, y, op, "dimension"))
         # '+' with a single Dimension as LEFT operand: a one-element set; overlap must be refused as well
         if len(x) >= 1:
             rec(*run_dimplus_case(x))
